@@ -193,6 +193,7 @@ def impl_run(c):
         return r
 
     ft.ScheduledFiniteThrust.getStateChangeCallback = spy_cb
+    step_events, rerun = [], None
     try:
         for k in range(1, N + 1):
             t0, t1 = c["late"] + (k - 1) * dt, c["late"] + k * dt
@@ -209,6 +210,7 @@ def impl_run(c):
             step_now[0] = k
             # the burns as they stand in the queue handed to the propagator in this call (an equal event may stand there more than once)
             queues.append([min(range(len(burns)), key=lambda j: abs(float(ev.start_time) - burns[j][0])) for ev in agent.propagate_event_queue])
+            step_events.append(list(agent.propagate_event_queue))
             x = dyn.propagate(ScenarioTime(t0), ScenarioTime(t1), x, scheduled_events=agent.propagate_event_queue)
             for rec in pushed[n0:]:
                 msg = str(getattr(rec, "description", getattr(rec, "event", rec)))
@@ -223,6 +225,15 @@ def impl_run(c):
             n1 = len(pushed)
             xb = dyn.propagate(ScenarioTime(t0), ScenarioTime(t1), xb, scheduled_events=[])
             del pushed[n1:]
+        # the same arc once more, with the very same event objects (a what-if comparison, a filter predicting a step again): a burn thrusts over its
+        # configured interval in every propagation it is handed to, not only the first
+        n_cb, n_p = len(callbacks), len(pushed)
+        dyn2, xr = make_dynamics(c["model"]), x0_of(c["orbit"]).copy()
+        for k in range(1, N + 1):
+            xr = dyn2.propagate(ScenarioTime(c["late"] + (k - 1) * dt), ScenarioTime(c["late"] + k * dt), xr, scheduled_events=step_events[k - 1])
+        rerun = [float(v) for v in xr]
+        del callbacks[n_cb:]
+        del pushed[n_p:]
     finally:
         ft.EventStack.pushEvent = old
         ft.ScheduledFiniteThrust.getStateChangeCallback = orig_cb
@@ -252,7 +263,7 @@ def impl_run(c):
     yb = xb0.copy()
     for k in range(1, N + 1):
         yb = fresh.propagate(ScenarioTime(c["late"] + (k - 1) * dt), ScenarioTime(c["late"] + k * dt), yb)
-    return {"final": [float(v) for v in x], "ref": [float(v) for v in y], "coast": [float(v) for v in coast], "switches": switches,
+    return {"rerun": rerun, "final": [float(v) for v in x], "ref": [float(v) for v in y], "coast": [float(v) for v in coast], "switches": switches,
             "companion": [float(v) for v in xb], "companion_ref": [float(v) for v in yb],
             "callbacks": callbacks, "ends": ends, "queues": queues,
             # the interval as the propagator was given it (the configured instants after their passage through Julian dates: +-25 microseconds)
@@ -314,6 +325,11 @@ def oracle(run: Run, c, impl):
     i = impl[1]
     fails = []
     final, ref, coast = np.array(i["final"]), np.array(i["ref"]), np.array(i["coast"])
+    if i.get("rerun") is not None:
+        rr = np.array(i["rerun"])
+        if float(np.linalg.norm(rr[:3] - final[:3])) > 1e-6 or float(np.linalg.norm(rr[3:] - final[3:])) > 1e-9:
+            fails.append(("trajectory:rerun", f"the same arc propagated a second time with the same scheduled-event objects ends {np.linalg.norm(rr[:3] - final[:3]):.3g} km / "
+                                              f"{np.linalg.norm(rr[3:] - final[3:]):.3g} km/s from the first pass"))
     dpos, dvel = float(np.linalg.norm(final[:3] - ref[:3])), float(np.linalg.norm(final[3:] - ref[3:]))
     effect = float(np.linalg.norm(ref[3:] - coast[3:]))
     run.worse("velocity-vs-reference-km/s", dvel)
